@@ -17,6 +17,8 @@ type GenOpts struct {
 	UniqueStores bool
 	// ManyGroups: small work-groups, 65-280 of them (more groups than one GPU has compute units)
 	ManyGroups bool
+	// SubDword allows flat_load_ubyte / sbyte / ushort
+	SubDword bool
 	// FixedGeo, when set, is used instead of a drawn geometry
 	FixedGeo *Geometry
 	// MaxValues caps the number of values (vector registers) of the program (0 = only the
@@ -246,6 +248,12 @@ func GenProgram(t *rapid.T, o GenOpts) *Program {
 				op.N = rapid.SampledFrom([]int{2, 4}).Draw(t, "loadwidth")
 				op.Imm = uint32(rapid.IntRange(0, 3).Draw(t, "loadoff"))
 				extraRegs += op.N - 1
+			} else if o.SubDword && rapid.IntRange(0, 2).Draw(t, "sub") == 0 {
+				op.Sub = rapid.SampledFrom([]string{"u8", "i8", "u16"}).Draw(t, "subkind")
+				op.Imm = uint32(rapid.IntRange(0, 3).Draw(t, "suboff"))
+				if op.Sub == "u16" {
+					op.Imm &= 2
+				}
 			}
 		case "sload":
 			op.K = rapid.IntRange(0, 1).Draw(t, "k")
